@@ -1,6 +1,7 @@
 """Shift / bit-scan / single-word division kernels (shift.rs, bits.rs::repr helpers, div/mod.rs)."""
 VERUS = {
     'int_shift': {'file': 'int_shift.rs', 'w32': True},
+    'int_bits': {'file': 'int_bits.rs', 'w32': True},
 }
 
 KANI = {
@@ -13,8 +14,17 @@ KANI = {
             'vk_shift_one_word_len4': {'kind': 'bounded', 'bound': 'len <= 4'},
         },
     },
+    'int_bits': {
+        'package': 'dashu-int', 'target': 'integer/src/bits.rs', 'file': 'int_bits.rs',
+        'harnesses': {
+            'vk_bits_dword_low_bits': {'kind': 'complete', 'domain': 'all u128 x all usize n'},
+            'vk_bits_slice_low_bits_len1': {'kind': 'bounded', 'bound': 'len <= 3'},
+            'vk_bits_slice_low_bits_len2': {'kind': 'bounded', 'bound': 'len <= 3'},
+            'vk_bits_slice_low_bits_len3': {'kind': 'bounded', 'bound': 'len <= 3'},
+        },
+    },
 }
 
 PROP_UNITS = {
-    'C09': {'verus': ['int_shift'], 'kani': ['int_shift']},
+    'C09': {'verus': ['int_shift', 'int_bits'], 'kani': ['int_shift', 'int_bits']},
 }
